@@ -40,7 +40,8 @@ ASSUMPTIONS = [
     "answers are compared through a digest: equality of digests is taken for equality of answers",
     "single thread, single contextvars.Context per history",
     "the dataclass option d is Optional[Data] with Data(a: int = 0, b: int = 0) (no required field); dict-like sources "
-    "give d as one mapping; no field of d is given on the command line after a --cfg that gives d; the environment never "
+    "give d as one mapping; at most one --cfg of a command line gives d and no field of d follows it on that line; a "
+    "dict-like source names a class option once (class first, then its parameters); the environment never "
     "gives d; dump(skip_default=True) is not generated for parsers with class or dataclass options",
 ]
 EXHAUSTIVE = {"quick": False, "thorough": False}
@@ -130,6 +131,7 @@ def dedupe(items):
 def gen_cfg_items(rng, decl):
     items = []
     root = decl["root"]
+    used_cls = set()   # one group (class, then its parameters) per class option and source
     for _ in range(rng.choice([1, 1, 2, 3])):
         x = rng.random()
         if x < 0.5:
@@ -140,7 +142,10 @@ def gen_cfg_items(rng, decl):
             n, k = rng.choice(spd["opts"])
             items.append([sn + "." + n, val_for(rng, k, 0.08)])
         elif x < 0.9 and root["cls"]:
-            items += gen_cls_items(rng, rng.choice(root["cls"]), 0.08)
+            co = rng.choice(root["cls"])
+            if co[0] not in used_cls:
+                used_cls.add(co[0])
+                items += gen_cls_items(rng, co, 0.08)
         elif x < 0.95:
             items.append(["zz", "1"])
     if root.get("dc") and rng.random() < 0.45:
@@ -220,10 +225,12 @@ def gen_argv(rng, decl):
     seen_cfg_d = False
     kept = []
     for t in toks:
-        if t[0] == "cfg" and any(k == "d" for k, _ in t[1]):
-            seen_cfg_d = True
         if seen_cfg_d and t[0] == "opt" and t[1].startswith("d."):
             continue
+        if t[0] == "cfg" and any(k == "d" for k, _ in t[1]):
+            if seen_cfg_d:
+                t = ["cfg", [kv for kv in t[1] if kv[0] != "d"]]
+            seen_cfg_d = True
         kept.append(t)
     toks = kept
     if any(t[0] == "opt" and t[1].endswith(".help") for t in toks):
